@@ -175,3 +175,16 @@ func r2FirstLine(r *rng) string {
 
 	return pick(r, r2FirstLines)
 }
+
+// r2FirstLineInert: multi-byte first lines that are NOT network rules (a network rule with a non-ASCII pattern puts a
+// scenario outside the domain on which the engine families' models of ToLower / pattern matching are exact): the mark in
+// front of a cosmetic rule, of a line with an unknown modifier, of a title with a `$` in it.
+func r2FirstLineInert(r *rng, names []string) string {
+	nm := "example.org"
+	if len(names) > 0 {
+		nm = pick(r, names)
+	}
+
+	return "\xef\xbb\xbf" + pick(r, []string{nm + "##.banner", "! Title: deals from $5", "||" + nm + "^$unknown", "! Homepage: http://" + nm + "/?a=1$x",
+		"##.ad-box", "! Title: " + nm + " $ list", nm + "#@#.banner"})
+}
